@@ -1,9 +1,12 @@
 /-
   Line-protocol handler for the model export (C12).
 
-  stream `export.run`   payload = the JSON document of a HUGR (Bridge/Json syntax)
-     -> {"module": dump, "spec": {predicate: bool…}}   the dump of `exportModule (loadJson doc)` (Bridge/Model)
-                                                       and the verdicts of the specification predicates on it
+  stream `export.run`   payload = [doc, impl]: the JSON document of a HUGR and the dumped module the
+                        implementation exported for it (or null), both in Bridge/Json syntax
+     -> {"module": dump, "spec": {predicate: bool…}, "spec_model": {…}}
+            dump        = `exportModule (loadJson doc)` (Bridge/Model);
+            spec        = the verdicts of the specification predicates (ExportSpec) on the IMPLEMENTATION's module;
+            spec_model  = their verdicts on the model's own module
       | {"error": cls}                                   `to_model()` raised
      `!unsupported` if the document does not load.
 -/
@@ -28,18 +31,30 @@ where
     | [] => 0
     | (_, v) :: rest => jsonSize v + sizeFields rest
 
+def specJson (s : Export.St) (m : Model.Module) : Json :=
+  .obj ((ExportSpec.verdicts s m).map fun (kv : String × Bool) => (kv.1, Json.bool kv.2))
+
+/-- `doc`: the document; `impl`: the module the implementation exported (dumped), or `null`. -/
+def run (doc impl : Json) : String :=
+  let dfuel := jsonSize doc + 8
+  match Serial.loadJson (Serial.opsCodec dfuel) doc with
+  | .error _ => "!unsupported"
+  | .ok s =>
+    match Export.exportModule dfuel (Export.defaultFuel s) s with
+    | .error e => jsonText (.obj [("error", .str e.name)])
+    | .ok m =>
+      let implSpec : Json :=
+        match impl with
+        | .null => .null
+        | j =>
+          match Bridge.Model.moduleOf j with
+          | none => .str "unreadable"
+          | some mi => specJson s mi
+      jsonText (.obj [("module", Bridge.Model.moduleJson m), ("spec", implSpec), ("spec_model", specJson s m)])
+
 def handleRun (payload : Sexp) : String :=
   match jsonOfSexp payload with
-  | none => "!bad-payload"
-  | some doc =>
-    let dfuel := jsonSize doc + 8
-    match Serial.loadJson (Serial.opsCodec dfuel) doc with
-    | .error _ => "!unsupported"
-    | .ok s =>
-      match Export.exportModule dfuel (Export.defaultFuel s) s with
-      | .error e => jsonText (.obj [("error", .str e.name)])
-      | .ok m =>
-        jsonText (.obj [("module", Bridge.Model.moduleJson m),
-          ("spec", .obj ((ExportSpec.verdicts s m).map fun (kv : String × Bool) => (kv.1, Json.bool kv.2)))])
+  | some (.arr [doc, impl]) => run doc impl
+  | _ => "!bad-payload"
 
 end HugrVerif.Drive.Export
